@@ -241,6 +241,28 @@ def run(ctx):
         if got != want:
             disagree("header-line", h, wire, want, got)
 
+    # header lines that reach the gate through obs-fold joining: a continuation
+    # line carrying a bare CR / LF must be refused like any other line
+    for first in (b"X: a", b"Content-Length:", b"X:"):
+        for lead in (b" ", b"\t"):
+            for cont in (b"b", b"4", b""):
+                for bad in (b"\n", b"\r", b"\nq", b"x\ny", b"\r\t"):
+                    evaluations += 1
+                    wire = b"GET / HTTP/1.1\r\n" + first + b"\r\n" + lead + cont + bad + b"\r\n\r\n"
+                    got = impl_head(wire)
+                    dist[got if got in dist else "other"] += 1
+                    if got != "reject":
+                        disagree("header-line-folded", first + b"|" + lead + cont + bad, wire, "reject", got)
+                # control: the same continuation without the bare CR/LF is a valid obs-fold
+                evaluations += 1
+                ok_cont = b"4" if first.startswith(b"Content-Length") else (cont or b"z")
+                wire = b"GET / HTTP/1.1\r\n" + first + b"\r\n" + lead + ok_cont + b"\r\n\r\n"
+                got = impl_head(wire)
+                if got != "accept":
+                    disagree("header-line-folded", first + b"|" + lead + ok_cont, wire, "accept", got)
+                else:
+                    nontrivial.add(("fold", wire))
+
     # request line
     rls = [r for r in strings_for(GATE_ALPHABETS["gate_request_line"], rng, ctx.tier)
            if r and b"\r\n" not in r]
